@@ -56,6 +56,8 @@ pub enum Op {
     Reserve { w: usize, k: usize },
     ReserveEntity { w: usize },
     ReserveEntities { w: usize, n: usize },
+    /// `reserve_entities(n)` with the iterator advanced `k` times only (the call itself claims all `n` ids)
+    ReserveBulk { w: usize, n: u64, k: usize },
     Obs { w: usize },
     DropWorld { w: usize },
     /// `es`: the handle array of the `many_*` paths (`query_many_mut`, `get_many_mut`)
@@ -155,6 +157,7 @@ impl Op {
             Op::Reserve { w, k } => format!("reserve W{} k={}", w, k),
             Op::ReserveEntity { w } => format!("reserve_entity W{}", w),
             Op::ReserveEntities { w, n } => format!("reserve_entities W{} n={}", w, n),
+            Op::ReserveBulk { w, n, k } => format!("reserve_bulk W{} n={} k={}", w, n, k),
             Op::Obs { w } => format!("obs W{}", w),
             Op::DropWorld { w } => format!("drop W{}", w),
             Op::Query { w, q, path, h, n, es } => format!(
@@ -240,6 +243,7 @@ impl Op {
             "reserve" => Op::Reserve { w, k: f("k").parse().unwrap() },
             "reserve_entity" => Op::ReserveEntity { w },
             "reserve_entities" => Op::ReserveEntities { w, n: f("n").parse().unwrap() },
+            "reserve_bulk" => Op::ReserveBulk { w, n: f("n").parse().unwrap(), k: f("k").parse().unwrap() },
             "obs" => Op::Obs { w },
             "drop" => Op::DropWorld { w },
             "track" => Op::Track { w, reads: parse_reads(f("reads")) },
@@ -579,6 +583,19 @@ impl Ctx {
                 let found = unsafe { world.find_entity_from_id(e.id()) };
                 if found != *e {
                     acc = Some(format!("World::find_entity_from_id:{}!={}", show_entity(found), show_entity(*e)));
+                    break;
+                }
+            }
+        }
+        if acc.is_none() {
+            // the `&mut World` single-entity accessors answer like the shared ones (reserved handles included)
+            for &h in hs.iter() {
+                let c = world.contains(h);
+                let one = world.query_one_mut::<()>(h).is_ok();
+                let [many] = world.query_many_mut::<(), 1>([h]);
+                let sat = matches!(world.query_one_mut::<hecs::Satisfies<&A>>(h), Ok(_));
+                if one != c || many.is_ok() != c || sat != c {
+                    acc = Some(format!("World::query_one_mut/query_many_mut:{}:{}{}{}!={}", show_entity(h), one, many.is_ok(), sat, c));
                     break;
                 }
             }
@@ -974,6 +991,11 @@ impl Ctx {
             }
             Op::ReserveEntities { w, n } => {
                 let es: Vec<Entity> = self.world(*w).reserve_entities(*n as u32).collect();
+                self.push_handles(&es);
+                (op.show(), format!("es={}", show_entities(&es)))
+            }
+            Op::ReserveBulk { w, n, k } => {
+                let es: Vec<Entity> = self.world(*w).reserve_entities(*n as u32).take(*k).collect();
                 self.push_handles(&es);
                 (op.show(), format!("es={}", show_entities(&es)))
             }
@@ -1482,6 +1504,68 @@ impl Gen {
         self.plan.push_back(Op::Obs { w });
     }
 
+    /// scenario: a world emptied by despawns and takes (not by `clear`): no live entity left, but the
+    /// generation of every id it ever used is still on record; then it is repopulated through one of the
+    /// spawn paths and must keep handing out handles it never handed out before
+    fn plan_emptied_world(&mut self, ctx: &Ctx, w: usize) {
+        let live = Self::live(ctx, w);
+        if live.is_empty() || live.len() > 12 {
+            return;
+        }
+        for (i, _, _) in live.iter() {
+            if self.rng.chance(25) {
+                self.plan.push_back(Op::Take { w, h: ctx.href(*i), into: None });
+            } else {
+                self.plan.push_back(Op::Despawn { w, h: ctx.href(*i) });
+            }
+        }
+        match self.rng.below(5) {
+            0 | 1 => {
+                let decl = self.random_types(3);
+                let n = 1 + self.rng.below(3);
+                let rows = self.batch_rows(&decl, n);
+                let base = 30 + self.rng.below(10) as u32;
+                let hs = (0..n).map(|j| HRef::Lit(base + j as u32, 1 + self.rng.below(2) as u32)).collect();
+                self.plan.push_back(Op::SpawnCbAt { w, hs, decl, rows });
+            }
+            2 => {
+                let k = self.rng.below(15);
+                let ts = bundle_types(k);
+                let rows = (0..2).map(|_| self.bundle_for_types(&ts)).collect();
+                self.plan.push_back(Op::SpawnBatch { w, k, via: "batch".into(), rows });
+            }
+            3 => self.plan.push_back(Op::ReserveEntities { w, n: 2 }),
+            _ => {}
+        }
+        for _ in 0..3 {
+            let (k, b) = self.random_bundle();
+            self.plan.push_back(Op::Spawn { w, k, b });
+        }
+        self.plan.push_back(Op::Obs { w });
+    }
+
+    /// scenario: the end of the `u32` id space.  One `reserve_entities` call claims every id up to (or one
+    /// short of, or one past) the last one without the iterator being run, then single reservations follow:
+    /// the calls must hand out the remaining ids and then refuse ("too many entities"), never wrap around.
+    /// Nothing may flush afterwards (four billion reservations), so the world is replaced by a new one.
+    fn plan_id_limit(&mut self, ctx: &Ctx, w: usize) {
+        let Some(Some(world)) = ctx.worlds.get(w) else { return };
+        let d = world.verif_dump().entities;
+        let (m, c) = (d.meta.len() as i64, d.free_cursor as i64);
+        // end of the range of new ids = m + n - c
+        let exact = u32::MAX as i64 - m + c;
+        let n = exact + *self.rng.pick(&[0i64, 0, 1, -1]).unwrap();
+        if n < 1 || n > u32::MAX as i64 {
+            return;
+        }
+        self.plan.push_back(Op::ReserveBulk { w, n: n as u64, k: 2 + self.rng.below(2) });
+        for _ in 0..3 {
+            self.plan.push_back(Op::ReserveEntity { w });
+        }
+        // (replaced, not just dropped: the generator goes on addressing world `w`)
+        self.plan.push_back(Op::NewWorld { w });
+    }
+
     /// scenario: one entity grows to ten component types of four different alignments, one insert at a
     /// time, and shrinks again (lookups by type in wide archetypes)
     fn plan_wide_entity(&mut self, w: usize) {
@@ -1500,6 +1584,42 @@ impl Gen {
         self.plan.push_back(Op::Obs { w });
         for k in singles.iter().take(4) {
             self.plan.push_back(Op::Remove { w, h: Self::LAST, k: *k });
+        }
+        self.plan.push_back(Op::Obs { w });
+    }
+
+    /// scenario: a world that grows past 32 archetypes (two entities walking up and down the lattice of
+    /// component sets in different orders) while prepared queries are used every few steps: whatever is keyed
+    /// or stamped by the number of archetypes has to keep up
+    fn plan_many_archetypes(&mut self, w: usize) {
+        let h = HRef::Lit(u32::MAX, u32::MAX);
+        let qs = [0usize, 1, 2, 4, 5, 11, 29, 38, 40, 41, 44];
+        let paths = ["prepared", "prepared_view", "prepared_mut", "prepared"];
+        let mut step = 0usize;
+        for _ in 0..2 {
+            let mut singles = vec![1usize, 2, 3, 4, 5, 6, 7, 8, 9, 26];
+            self.rng.shuffle(&mut singles);
+            let first = singles[0];
+            let b = self.bundle_for_types(&bundle_types(first));
+            self.plan.push_back(Op::Spawn { w, k: Some(first), b });
+            let mut ops: Vec<Op> = Vec::new();
+            for k in singles.iter().skip(1) {
+                let b = self.bundle_for_types(&bundle_types(*k));
+                ops.push(Op::Insert { w, h: Self::LAST, k: Some(*k), b });
+            }
+            self.rng.shuffle(&mut singles);
+            for k in singles.iter().take(8) {
+                ops.push(Op::Remove { w, h: Self::LAST, k: *k });
+            }
+            for op in ops {
+                self.plan.push_back(op);
+                step += 1;
+                if step % 3 == 0 {
+                    let q = *self.rng.pick(&qs).unwrap();
+                    let path = paths[(step / 3) % paths.len()].to_string();
+                    self.plan.push_back(Op::Query { w, q, path, h: h.clone(), n: 2, es: vec![] });
+                }
+            }
         }
         self.plan.push_back(Op::Obs { w });
     }
@@ -1780,6 +1900,18 @@ impl Gen {
                 return Self::bind_last(op, ctx);
             }
         }
+        if matches!(self.profile, Profile::Mixed | Profile::Reserve) && self.rng.chance(1) {
+            self.plan_emptied_world(ctx, w);
+            if let Some(op) = self.plan.pop_front() {
+                return Self::bind_last(op, ctx);
+            }
+        }
+        if self.profile == Profile::Reserve && self.rng.chance(1) && self.rng.chance(35) {
+            self.plan_id_limit(ctx, w);
+            if let Some(op) = self.plan.pop_front() {
+                return Self::bind_last(op, ctx);
+            }
+        }
         if self.profile == Profile::Mixed && self.rng.chance(2) {
             self.plan_wide_entity(w);
             if let Some(op) = self.plan.pop_front() {
@@ -1788,6 +1920,12 @@ impl Gen {
         }
         if self.profile == Profile::Containers && self.rng.chance(4) {
             self.plan_round_trip(ctx, w);
+            if let Some(op) = self.plan.pop_front() {
+                return Self::bind_last(op, ctx);
+            }
+        }
+        if self.profile == Profile::Query && ctx.table.is_empty() && self.rng.chance(8) {
+            self.plan_many_archetypes(w);
             if let Some(op) = self.plan.pop_front() {
                 return Self::bind_last(op, ctx);
             }
@@ -2144,7 +2282,7 @@ pub fn run_history(
             Op::Spawn { w, .. } | Op::SpawnAt { w, .. } | Op::SpawnBatch { w, .. } | Op::SpawnCb { w, .. }
             | Op::SpawnCbAt { w, .. } | Op::Insert { w, .. } | Op::Remove { w, .. } | Op::Exchange { w, .. }
             | Op::Despawn { w, .. } | Op::Take { w, .. } | Op::Clear { w } | Op::Flush { w } | Op::Reserve { w, .. }
-            | Op::ReserveEntity { w } | Op::ReserveEntities { w, .. } | Op::Obs { w } | Op::DropWorld { w }
+            | Op::ReserveEntity { w } | Op::ReserveEntities { w, .. } | Op::ReserveBulk { w, .. } | Op::Obs { w } | Op::DropWorld { w }
             | Op::Query { w, .. } => Some(*w),
             Op::Cont(c) => c.world(),
             Op::Track { w, .. } | Op::TObs { w } | Op::Ser { w, .. } | Op::DeBytes { w, .. } => Some(*w),
